@@ -13,6 +13,8 @@
 -/
 import PyodaModel.Codec.Prim
 import PyodaModel.Codec.Zone
+import PyodaModel.Codec.Tail
+import PyodaModel.Codec.Stream
 
 namespace Pyoda.Codec
 
@@ -175,7 +177,6 @@ def handleZone (toks : List String) : Option String :=
   match toks with
   | ["enc.yo", y] => do let y ← parseYO? y; some (showR showHex (do let y ← mkYearOffset y; writeYearOffset y))
   | ["dec.yo", h] => do let b ← parseHex? h; some (withRest showYO (readYearOffset b))
-  | ["enc.rec", p, z] => do let p ← parsePool? p; let z ← parseRec? z; some (withPool (writeRecurrence p z))
   | ["enc.map", p, m] => do
       let p ← parsePool? p; let m ← parseMap? m; some (withPool (do let m ← mkMap m; writeAlternatingMap p m))
   | ["dec.map", p, h] => do let p ← parsePool? p; let b ← parseHex? h; some (withRest showMap (readAlternatingMap p b))
@@ -202,7 +203,151 @@ def handleZone (toks : List String) : Option String :=
       | .ok pool => some (" ".intercalate (fs.map fun f => showR id (reencodeZoneField pool f)))
   | _ => none
 
+/-- `_ZoneRecurrence(name, savings, year_offset, from_year, to_year)` from protocol fields -/
+def mkRecurrence (z : ZoneRecurrence) : R ZoneRecurrence := do
+  let y ← mkYearOffset z.yearOffset
+  let _ ← Offset.fromSeconds z.savings.seconds
+  recurrenceCtor { z with yearOffset := y }
+
+def showLocal (l : LocalInstant) : String := s!"{l.dur.days}:{l.dur.nod}"
+
+def handleTail (toks : List String) : Option String :=
+  match toks with
+  | ["enc.rec", p, z] => do
+      let p ← parsePool? p; let z ← parseRec? z; some (withPool (do let z ← mkRecurrence z; writeRecurrence p z))
+  | ["dec.rec", p, h] => do let p ← parsePool? p; let b ← parseHex? h; some (withRest showRec (readRecurrence p b))
+  | ["tail.occ", y, year] => do
+      let y ← parseYO? y; let year ← parseInt? year
+      some (showR showLocal (do let y ← mkYearOffset y; occurrenceForYear y year))
+  | ["tail.interval", m, i] => do
+      let m ← parseMap? m; let i ← parseInstant? i
+      some (showR showInterval (do let m ← mkMap m; mapGetZoneInterval m i))
+  | ["dec.zonefull", p, id, h] => do
+      let p ← parsePool? p; let id ← parseHex? id; let b ← parseHex? h
+      some (withRest (fun z => showZone (.precalculated z)) (readPrecalculated p id b))
+  | _ => none
+
+/-! ## stream container ops
+
+  fault syntax (applied left to right, positions refer to the current bytes; `+` joins several):
+    `t<pos>` keep the first `pos` bytes · `s<pos>:<hex>` overwrite at `pos` · `i<pos>:<hex>` insert before `pos`
+    · `d<pos>:<k>` delete `k` bytes at `pos` -/
+
+def applyFault1 (bs : Bytes) (f : String) : Option Bytes :=
+  match f.toList with
+  | 't' :: rest => do let p ← (String.ofList rest).toNat?; some (bs.take p)
+  | c :: rest =>
+    match (String.ofList rest).splitOn ":" with
+    | [p, arg] => do
+      let p ← p.toNat?
+      if c = 's' then do
+        let h ← parseHex? arg
+        some (bs.take p ++ (h.take (bs.length - p)) ++ bs.drop (p + h.length))
+      else if c = 'i' then do
+        let h ← parseHex? arg
+        some (bs.take p ++ h ++ bs.drop p)
+      else if c = 'd' then do
+        let k ← arg.toNat?
+        some (bs.take p ++ bs.drop (p + k))
+      else none
+    | _ => none
+  | [] => none
+
+def applyFault (bs : Bytes) (f : String) : Option Bytes :=
+  if f = "none" then some bs else (f.splitOn "+").foldlM applyFault1 bs
+
+def showUse : R Nat → String
+  | .ok n => s!"ok{n}"
+  | .error e => "!" ++ e.name
+
+/-- Evaluation shortcut of the `stream.faults*` ops only (not used by any theorem): `forIdRaw d id` is a function
+    of the string pool, the id and the zone field bytes, so a (id, field) pair that was fetched successfully from
+    the undamaged file with the same pool need not be decoded again. -/
+structure BaseInfo where
+  pool : List Str
+  okZones : List (Str × Bytes)
+
+def baseInfo (base : Bytes) : Option BaseInfo :=
+  match fromStreamRaw base with
+  | .error _ => none
+  | .ok d =>
+    some ⟨d.stringPool, (getIds d).filterMap fun id =>
+      match dictGet? d.idMap id with
+      | none => none
+      | some canonical =>
+        match d.zoneFields.find? (·.1 = canonical) with
+        | none => none
+        | some (_, field) =>
+          match forIdRaw d id with
+          | .ok _ => some (id, field)
+          | .error _ => none⟩
+
+/-- `forIdRaw d id` for the entry `(id, canonical)` of the id map itself (keys of the map are distinct, so the
+    lookup by `id` returns `canonical`) -/
+def forEntryRaw (d : StreamData) (id canonical : Str) : R ZoneValue :=
+  if canonical.isEmpty then .error .valueError
+  else match d.zoneFields.find? (·.1 == canonical) with
+    | none => .error .keyError
+    | some (_, field) => createZoneRaw (some d.stringPool) id field
+
+def forEntryCached (bi : Option BaseInfo) (samePool : Bool) (d : StreamData) (e : Str × Str) : R ZoneValue :=
+  match bi with
+  | some b =>
+    if samePool && !e.2.isEmpty then
+      match d.zoneFields.find? (·.1 == e.2) with
+      | some (_, field) =>
+        if b.okZones.any (fun z => z.1 == e.1 && z.2 == field) then .ok (.fixed default)
+        else createZoneRaw (some d.stringPool) e.1 field
+      | none => .error .keyError
+    else forEntryRaw d e.1 e.2
+  | none => forEntryRaw d e.1 e.2
+
+def fetchEntries (f : Str × Str → R ZoneValue) : List (Str × Str) → R Nat
+  | [] => .ok 0
+  | e :: es => do
+    let _ ← f e
+    let n ← fetchEntries f es
+    .ok (n + 1)
+
+def useCachedRaw (bi : Option BaseInfo) (bytes : Bytes) : R Nat := do
+  let d ← fromStreamRaw bytes
+  let same := match bi with | some b => d.stringPool == b.pool | none => false
+  fetchEntries (forEntryCached bi same d) d.idMap
+
+def showUseIntended (r : R Nat) : String := showUse (toInvalidData r)
+
+def handleStream (toks : List String) : Option String :=
+  match toks with
+  | ["stream.load", h] => do
+      let b ← parseHex? h
+      some (showR (fun (d : StreamData) => s!"{d.idMap.length} {d.zoneFields.length} {d.stringPool.length} {showStr d.version}") (fromStreamRaw b))
+  | ["stream.use", h] => do let b ← parseHex? h; some (showUse (loadAndUse b))
+  | ["stream.useraw", h] => do let b ← parseHex? h; some (showUse (loadAndUseRaw b))
+  | "stream.faults" :: h :: faults => do
+      let b ← parseHex? h
+      let bi := baseInfo b
+      let l ← faults.mapM (fun f => (applyFault b f).map (fun x => showUseIntended (useCachedRaw bi x)))
+      some (" ".intercalate l)
+  | "stream.faultsraw" :: h :: faults => do
+      let b ← parseHex? h
+      let bi := baseInfo b
+      let l ← faults.mapM (fun f => (applyFault b f).map (fun x => showUse (useCachedRaw bi x)))
+      some (" ".intercalate l)
+  | "stream.faultsfull" :: h :: faults => do
+      let b ← parseHex? h
+      let l ← faults.mapM (fun f => (applyFault b f).map (fun x => showUse (loadAndUse x) ++ "/" ++ showUse (loadAndUseRaw x)))
+      some (" ".intercalate l)
+  | "zone.create" :: pf :: fields => do
+      let pool ← parsePoolField? pf
+      let fs ← fields.mapM parseHex?
+      match pool with
+      | .error e => some ("!" ++ e.name)
+      | .ok pool =>
+        some (" ".intercalate (fs.map fun f =>
+          showR showZone (do let (id, _) ← readString pool f; createZoneRaw pool id f)))
+  | _ => none
+
 def handle (toks : List String) : Option String :=
-  (handlePrim toks).orElse fun _ => handleZone toks
+  (handlePrim toks).orElse fun _ => (handleZone toks).orElse fun _ => (handleTail toks).orElse fun _ => handleStream toks
 
 end Pyoda.Codec
